@@ -1280,8 +1280,9 @@ impl RustRuleEngine {
                 if self.config.debug_mode {
                     println!("  🎯 Activating agenda group: {}", group);
                 }
-                // Sync with both workflow engine and agenda manager immediately
-                self.workflow_engine.activate_agenda_group(group.clone());
+                // Focus moves immediately. Do not also queue the group in the workflow
+                // engine: the end-of-cycle sync would activate it a second time and reset
+                // lock-on-active tracking for rules that already fired in this activation.
                 self.agenda_manager.set_focus(group);
             }
             ActionType::ScheduleRule {
